@@ -53,6 +53,35 @@ def gen_triple(rng, i, quick):
     return dict(cid="t%d" % i, kw=kw, n1=n1, n2=n2, j=j, kstart=kstart, imp=imp, tags1=tags1)
 
 
+def small_extent_triples(seed, quick):
+    """triples on grids that CUT the start Gaussian (PhaseSpaceSize 5..8 instead of 12, some shifted so that one side is cut
+    at less than 2 sigma): the object readPhaseSpace() constructs before it reads the record is then a truncated Gaussian,
+    and whatever its constructor leaves in the cached charge is what main()'s initial normalize() divides by.  Own PRNG
+    (the base stream keeps its draws).  No impedance (the property's quantifier: below threshold), RenormalizeCharge 0 / k
+    (for < 0 nothing is normalised) and one -1 control."""
+    import random
+    rng = random.Random(seed * 6007 + 11)
+    out = []
+    m = 8 if quick else 40
+    for i in range(m):
+        n = rng.choice([16, 20, 24, 32])
+        steps = rng.choice([8, 16])
+        n1 = rng.randint(2, steps)
+        n2 = rng.randint(1, steps)
+        outstep = rng.choice([1, 2, n1])
+        tags1 = [k for k in range(n1) if k % outstep == 0] + [n1]
+        j = rng.choice([None, None, 0, rng.randrange(len(tags1))])
+        kstart = tags1[-1 if j is None else j]
+        divs = [r for r in range(1, max(kstart, 1) + 1) if kstart % r == 0] or [1]
+        renorm = [0, 0, rng.choice(divs), 0, rng.choice(divs), -1, 0, rng.choice(divs)][i % 8]
+        pq = [6, 5, 7, 8, 6, 6, 7.5, 5.5][i % 8]
+        sx, sy = rng.choice([(0, 0), (0, 0), (2, 0), (0, -2), (3, 1), (-2.5, 2)])
+        kw = dict(n=n, steps=steps, outstep=outstep, save=1, currents=[rng.choice([1e-4, 3e-4])], renorm=renorm,
+                  shiftx=sx, shifty=sy, padding=2, gap=0, pqsize=pq)
+        out.append(dict(cid="p%d" % i, kw=kw, n1=n1, n2=n2, j=j, kstart=kstart, imp="none", tags1=tags1, extent=pq))
+    return out
+
+
 def rot_of(k, steps):
     return repr(k / float(steps))          # dyadic: exact in binary32 and in decimal
 
@@ -126,9 +155,13 @@ def run_triple(ctx, tg, t, dis):
         else:
             s = sum(a * b for a, b in zip(chosen, first)) / sum(a * a for a in chosen)
             bad = max(abs(a * s - b) for a, b in zip(chosen, first))
-            if abs(s - 1) > 1e-5 or bad > 8 * EPS * mx:
+            ctx.count("pos-scale-ulp:%d" % int(round(abs(s - 1) / (2 * EPS))))
+            # two rescales (the stale one and the loop head's), each by share/measured-share of a grid that was normalised
+            # when it was stored: C11_fresh_constructor_charge_is_share / C09_normalize_restores_share make both factors 1
+            # in exact arithmetic; in binary32 each is within a few ulp of 1 (observed: total <= 4 ulp; bound 12 ulp)
+            if abs(s - 1) > 12 * 2 * EPS or bad > 8 * EPS * mx:
                 ctx.violation("impl-oracle", "the first phase space of the continued run is not the stored record up to the two normalisations",
-                              case=case, observed=dict(scale=s, dev=bad), expected="scale 1 +- 1e-5, dev <= %g" % (8 * EPS * mx),
+                              case=case, observed=dict(scale=s, dev=bad), expected="scale 1 +- 12 ulp (%g), dev <= %g" % (24 * EPS, 8 * EPS * mx),
                               sig=dict(sig, clause="loaded"))
         # ---- continuation (C11_continuation_equiv / _renorm0)
         if r < 0:
@@ -288,6 +321,9 @@ def run(ctx):
     import c11_splits
     c11_splits.model_pairs(ctx, dis)             # mirror of main()'s laststep line against the extracted Records.laststep
     c11_splits.run_splits(ctx, tg, dis)          # split points typed as decimal numbers, legs of a fraction of a step
+    for t in small_extent_triples(ctx.seed, ctx.quick()):
+        run_triple(ctx, tg, t, dis)
+        ctx.count("extent:%s" % t["extent"])
     ctx.extra["correspondence_disagreements"] = len(dis)
     ctx.assumptions += ["physics kernels are abstract in the continuation theorems; bit-equality for RenormalizeCharge < 0 and the rounding bound otherwise are checked on the binary",
                         "RenormalizeCharge > 0 not dividing the start tag: the model refutes equality (C11_continuation_nondividing_refuted); not compared on the implementation",
